@@ -376,8 +376,16 @@ def id_guard(ctx, M, RULE):
             if t.get("rpath", "").endswith("KeyDescription::<Key>::new"):
                 sites.append((f, bb, t))
     okid = bool(sites)
+    idf = description_fields(ctx)[0]
     for f, bb, t in sites:
-        ida = f.op_origin(t["args"][1])
+        # the value that ends up in the description's *id field* (the field the weight map is keyed by), whatever the
+        # constructor does with its arguments
+        from core import inline_ctor
+        kd = inline_ctor(F, f.origin_call(bb, t))
+        ida = dict(kd[3]).get(idf) if (kd[0] == "agg" and idf) else f.op_origin(t["args"][1])
+        if ida is None:
+            okid = False
+            continue
         fresh = mentions(ida, lambda x: is_call_to(x, "fetch_add"))
         if not fresh and ida[0] == "call" and ida[1] in F.fns:
             g = F.fns[ida[1]]
@@ -385,6 +393,70 @@ def id_guard(ctx, M, RULE):
         okid = okid and fresh
     ctx.check(okid, RULE, "ids-fresh", "every key description gets its id from the atomic fetch_add generator (an old index entry can never name a newer incarnation)",
               detail=str([f.where(bb) for f, bb, t in sites]))
+
+def description_fields(ctx):
+    """(id field, hash field) of the key description: the id is the u64 field the weight map is keyed by when the key is
+    charged; the hash is the other u64 field"""
+    F = ctx.facts
+    kd = [n for n in F.adts if n.endswith("KeyDescription")]
+    if not kd:
+        return None, None
+    u64s = [fl["name"] for fl in F.adts[kd[0]]["variants"][0]["fields"] if fl["ty"] == "u64"]
+    idf = None
+    for n, f in F.fns.items():
+        for b, t in f.calls():
+            if dashmap_call(t) == ("insert", "KW"):
+                k = f.op_origin(t["args"][1])
+                if k[0] == "field" and k[2] in u64s:
+                    idf = k[2]
+    hf = [x for x in u64s if x != idf]
+    return idf, (hf[0] if len(hf) == 1 else None)
+
+
+def configured_hash_rule(ctx, RULE):
+    """one hash per key everywhere: the hash recorded in a key description (the one admission estimates) and the hash pushed
+    into the access buffers on a hit are both `config.<hash fn>(that key)` - the same configured function, applied to the
+    key itself"""
+    from core import inline_ctor
+    F = ctx.facts
+    idf, hf = description_fields(ctx)
+    forms = []
+
+    def form_of(e, depth=0):
+        """(config field name, key expr) of `call(<x>.<field>, (key,))` through Fn::call; a local helper that only
+        computes that (`fn hash_of(&self, key)`) is looked through"""
+        if e[0] == "call" and "Fn" in e[1] and len(e[2]) == 2 and e[2][0][0] == "field" and e[2][1][0] == "agg" and len(e[2][1][3]) == 1:
+            return e[2][0][2], e[2][1][3][0][1]
+        if e[0] == "call" and e[1] in F.fns and depth < 3 and F.fns[e[1]].kind != "Closure":
+            from core import subst_params
+            return form_of(subst_params(F.fns[e[1]].origin_local(0), list(e[2])), depth + 1)
+        return None
+    n = 0
+    for name, f in F.fns.items():
+        for bb, t in f.calls():
+            if t.get("rpath", "").endswith("KeyDescription::<Key>::new"):
+                kd = inline_ctor(F, f.origin_call(bb, t))
+                d = dict(kd[3]) if kd[0] == "agg" else {}
+                fo = form_of(d.get(hf)) if hf and d.get(hf) is not None else None
+                n += 1
+                keyf = [v for k_, v in d.items() if k_ not in (idf, hf) and v[0] == "param"]
+                ctx.check(fo is not None and any(strip_site(fo[1]) == strip_site(k_) for k_ in keyf), RULE, "%s|description-hash-is-configured-hash-of-its-key" % name,
+                          "the hash recorded in a key description is the configured hash function applied to that description's own key", f.where(bb), fmt(d.get(hf))[:100] if hf else "")
+                if fo:
+                    forms.append(fo[0])
+            if t.get("rpath", "").endswith("Pool::<Consumer>::add") and len(t["args"]) >= 2:
+                h = f.op_origin(t["args"][1])
+                if h[0] == "param":
+                    continue        # forwarded: judged at the caller
+                fo = form_of(h)
+                n += 1
+                ctx.check(fo is not None and fo[1][0] == "param", RULE, "%s|access-hash-is-configured-hash-of-the-key" % name,
+                          "the hash pushed into the access buffers is the configured hash function applied to the key that was read", f.where(bb), fmt(h)[:100])
+                if fo:
+                    forms.append(fo[0])
+    ctx.check(len(set(forms)) == 1 and n >= 2, RULE, "one-configured-hash-function",
+              "key descriptions and access records use the same configured hash function (so admission asks the sketch about the hash the reads were counted under)", detail=str(sorted(set(forms))))
+
 
 def no_overwrite(ctx, RULE):
     """hooks remove store entries by key: that hits the right incarnation only if a store insert never overwrites
